@@ -112,7 +112,7 @@ class RetOb:
 
 
 def param_reaches_returns(an: Analyzer, program: Program, fq: str, params: Iterable[str],
-                          exempt: Optional[Dict[Tuple[str, str], str]] = None,
+                          exempt=None,
                           spec: tuple = ()) -> List[RetOb]:
     """one obligation per (value return, parameter): the returned value depends on the parameter"""
     f = program.func(fq)
@@ -134,7 +134,7 @@ def param_reaches_returns(an: Analyzer, program: Program, fq: str, params: Itera
             seen.add(k)
             text = norm_stmt(node)
             loc = f.loc(node)
-            why = (exempt or {}).get((pname, text))
+            why = exempt(pname, node, av) if callable(exempt) else (exempt or {}).get((pname, text))
             if why is not None:
                 out.append(RetOb(fq, pname, node, True, f'reviewed exemption: {why}', loc, text))
             elif pname in av.deps:
